@@ -12,7 +12,7 @@ TRUSTED = [
 ]
 ASSUMPTIONS = [
     "names, description lines, cells and doc-string lines are drawn so that they cannot be mistaken for another construct "
-    "(descriptions start with '~', names contain no line breaks, cells no backslashes other than escaped pipes)",
+    "(descriptions start with '~', names contain no line breaks, a cell does not end in a backslash)",
     "parse_file reads UTF-8 files written by the harness",
 ]
 RULE = ("documents rendered from seeded random abstract feature trees (0-2 rules, backgrounds at both levels, scenarios, outlines with 0-2 tagged "
@@ -36,7 +36,7 @@ EXHAUSTIVE = False
 STEP_TYPES = ["given", "when", "then", "and", "but"]
 NAME_WORDS = ["a user", "logs in", "2 items", "Ünï cödé", "x", "the <name> thing", "has: colon", "with | pipe", "日本語", "q'uote \"d\""]
 TAGS = ["t1", "wip", "slow", "a.b", "issue#12", "k=v", "Ünï"]
-CELLS = ["1", "two words", "", "a\\|b", "Ünï", "x=y", "<col>", "0.5"]
+CELLS = ["1", "two words", "", "a\\|b", "Ünï", "x=y", "<col>", "0.5", "C:\\\\dir\\\\f", "^\\d+\\\\w$", "a\\nb"]   # backslashes are kept as written; only \\| is an escape (no cell ends in a backslash)
 DOC_LINES = ["plain text", "  indented more", "", "Given looks like a step", "| looks | like | a row |", "@looks_like_a_tag", "# looks like a comment",
              "Feature: looks like a keyword", "trailing blanks   ", "'''", "Ünï"]
 
